@@ -505,82 +505,217 @@ def sweep_case(ck, drv, r, case, tier, tag, only=None):
 
 _LOOKUP_RUNS = [0]
 
+# (name, faults of the consecutive faulty passes).  One faulty pass = (fault of the first kind lookup of the pass,
+# virtual latency of that lookup, {API-call index: fault}).  "sibling-crash": the lookup is still in flight when
+# another step's PATCH raises and the task group aborts; "slow": the lookup answers, but after the step time-out.
+def _lookup_scenarios():
+    single = {"hang": ("hang", 0.0, {}), "raise": ("raise", 0.0, {}), "unknown-kind": ("unknown-kind", 0.0, {}),
+              "slow": (None, 12.0, {})}
+    # st2's calls are GET (#0) and PATCH (#1) while st0 is still waiting for its lookup (latency 1 s)
+    crash = {f"sibling-crash-{k}": (None, 1.0, {1: k}) for k in ("raise-before", "raise-after", 404, 409, 500)}
+    out = [("none", [])]
+    out += [(n, [p]) for n, p in {**single, **crash}.items()]
+    # two consecutive faulty passes (a sibling can only crash again if its PATCH did not take effect before)
+    for a in ("hang", "raise", "slow", "sibling-crash-raise-before", "sibling-crash-500"):
+        for b in ("hang", "raise", "sibling-crash-409"):
+            if b.startswith("sibling") and not a.startswith("sibling"):
+                continue
+            out.append((f"{a}+{b}", [{**single, **crash}[a], {**single, **crash}[b]]))
+    return out
 
-def lookup_scenarios(ck):
-    """`apiConfig.plural` omitted: the first evaluation asks the API for the kind's plural (`kind_lookup.py`).  That
-    request raising, never answering, or not knowing the kind must be contained like any other fault.  One fresh
-    prepare per scenario (the looked-up plural is memoised on the prepared Function)."""
+
+LOOKUP_SCENARIOS = _lookup_scenarios()
+
+
+class LCluster(TCluster):
+    """the kind-to-plural discovery (`lookup_kind`) as a fault point: the first lookup of a pass may raise, never
+    answer, not know the kind, or answer late"""
+
+    lookup_fault = None
+    lookup_latency = 0.0
+
+    async def lookup_kind(self, kind):
+        first = not self.lookups
+        self.lookups.append(kind)
+        fault = self.lookup_fault if first else None
+        entry = {"i": None, "method": "LOOKUP", "version": None, "plural": None, "namespace_arg": None,
+                 "name": kind, "body": None, "fault": fault, "tag": id(asyncio.current_task()), "applied": False}
+        self.log.append(entry)
+        if first and self.lookup_latency:
+            await asyncio.sleep(self.lookup_latency)
+        if fault == "hang":
+            await asyncio.Event().wait()
+        if fault == "raise":
+            raise RuntimeError("injected lookup failure")
+        if fault == "unknown-kind":
+            raise ValueError(f"Kind {kind} not found.")
+        entry["applied"] = True
+        return (None, kind.split(".")[0].lower() + "s", True)
+
+    async_lookup_kind = lookup_kind
+
+
+def _norm(text):
+    """kind names / plurals differ between scenarios (kr8s keeps a class per kind name for the whole process)"""
+    return re.sub(r"adget\d+", "adget", text)
+
+
+def _lookup_world(two_cold):
+    """a freshly prepared workflow on a fresh kind, cold plural cache:
+         st0  ResourceFunction WITHOUT apiConfig.plural (create)         st1  needs st0
+         st2  ResourceFunction with plural, patches an existing object   st3  (two_cold) a second Function on the cold kind
+    returns (workflow, initial objects, kind, plural)"""
+    import koreo_util as ku
+    from koreo.cache import get_resource_from_cache
+    from koreo.workflow.structure import Workflow
+
+    ku.reset()      # includes kind_lookup._reset(): done ONCE per scenario, never between its passes
+    _LOOKUP_RUNS[0] += 1
+    kname = f"Gadget{_LOOKUP_RUNS[0]}"
+    plural = kname.lower() + "s"
+
+    def cold(name):
+        return {"apiConfig": {"apiVersion": gen_wf.API_VERSION, "kind": kname, "name": name, "namespace": gen_wf.NS},
+                "resource": {"spec": {"want": 1}}, "create": {"delay": 7}, "return": {"site": name}}
+
+    async def offer():
+        await ku.offer_resource_function("lk.cold", cold("lk"))
+        await ku.offer_resource_function("lk.cold2", cold("lk2"))
+        await ku.offer_value_function("lk.after", {"return": {"got": "=inputs"}})
+        await ku.offer_resource_function("lk.warm", {
+            "apiConfig": {"apiVersion": gen_wf.API_VERSION, "kind": gen_wf.KIND, "plural": gen_wf.PLURAL,
+                          "name": "lkw", "namespace": gen_wf.NS},
+            "resource": {"spec": {"want": 1}}, "update": {"patch": {"delay": 5}}, "return": {"site": "lkw"}})
+        steps = [
+            {"label": "st0", "ref": {"kind": "ResourceFunction", "name": "lk.cold"},
+             "condition": {"type": "Cst0", "name": "st0"}},
+            {"label": "st1", "ref": {"kind": "ValueFunction", "name": "lk.after"}, "inputs": {"u": "=steps.st0"},
+             "condition": {"type": "Cst1", "name": "st1"}},
+            {"label": "st2", "ref": {"kind": "ResourceFunction", "name": "lk.warm"},
+             "condition": {"type": "Cst2", "name": "st2"}}]
+        if two_cold:
+            steps.append({"label": "st3", "ref": {"kind": "ResourceFunction", "name": "lk.cold2"},
+                          "condition": {"type": "Cst3", "name": "st3"}})
+        await ku.offer_workflow("lk", {"steps": steps})
+
+    ku.run(offer())
+    wf = get_resource_from_cache(resource_class=Workflow, cache_key="lk")
+    objects = {obj_key("lkw"): {"apiVersion": gen_wf.API_VERSION, "kind": gen_wf.KIND,
+                                "metadata": {"name": "lkw", "namespace": gen_wf.NS,
+                                             "ownerReferences": [dict(ku.OWNER_REF)]}, "spec": {"want": 2}}}
+    return wf, objects, kname, plural
+
+
+def _lookup_pass(wf, objects, lookup_fault=None, latency=0.0, api_faults=None):
     import celpy
     import koreo_util as ku
     from koreo.workflow.reconcile import reconcile_workflow
-    from koreo.workflow.structure import Workflow
-    from koreo.cache import get_resource_from_cache
     from vloop import run_virtual
 
+    cl = LCluster(objects=copy.deepcopy(objects), faults=api_faults)
+    cl.lookup_fault, cl.lookup_latency = lookup_fault, latency
+    raised, res, elapsed = None, None, 0.0
+    try:
+        res, elapsed, _ = run_virtual(reconcile_workflow(
+            api=cl, workflow_key="lk", owner=(gen_wf.NS, dict(ku.OWNER_REF)), trigger=celpy.json_to_cel({}), workflow=wf))
+    except (KeyboardInterrupt, SystemExit):
+        raise
+    except BaseException as e:
+        raised = repr(e)
+    obs = {"raised": raised, "elapsed": elapsed, "cluster": cl, "methods": [e["method"] for e in cl.log]}
+    if res is not None:
+        obs["conditions"] = [[c.get("type"), c.get("reason")] for c in res.conditions]
+        obs["overall"] = wf_run.outcome_abs(res.result)
+        obs["view"] = _norm(json.dumps({"overall": obs["overall"], "conditions": obs["conditions"],
+                                        "state": ku.plain(res.state), "rids": ku.plain(res.resource_ids)},
+                                       sort_keys=True, default=str))
+    return obs
+
+
+def _lookup_settle(wf, objects, label, bad, limit):
+    """fault-free passes (module state untouched) until one changes nothing; (objects, view) or None"""
+    cur = objects
+    for n in range(8):
+        o = _lookup_pass(wf, cur)
+        if o["raised"] or "view" not in o:
+            bad.append(f"{label}: fault-free pass {n + 1} did not return normally: {o['raised']}")
+            return None
+        if o["elapsed"] > EPS and not any("virtual seconds although" in b for b in bad):
+            bad.append(f"{label}: fault-free pass {n + 1} took {o['elapsed']} virtual seconds although every call answers "
+                       f"at once (conditions {o['conditions']})")
+        nxt = o["cluster"].objects
+        if snap(nxt) == snap(cur):
+            return _norm(snap(nxt)), o["view"], n + 1
+        cur = nxt
+    bad.append(f"{label}: not quiescent after 8 fault-free passes")
+    return None
+
+
+def lookup_scenarios(ck, only=None):
+    """`apiConfig.plural` omitted: the first evaluation asks the API for the kind's plural (`kind_lookup.py`).  That
+    request raising, never answering, answering late, not knowing the kind, or being cut off because a sibling step
+    crashed must be contained like any other fault AND must not poison later passes: after the faulty pass(es),
+    fault-free passes — with kind_lookup's module state left exactly as the faulty pass left it — must converge to the
+    cluster contents and Result of a run that never saw a fault.  Returns [(scenario, what)]."""
     limit = wf_run.step_timeout()
-    bad = []
-    for kind in ("ok", "raise", "hang", "unknown-kind"):
-        class LCluster(Cluster):
-            async def lookup_kind(self, k):
-                self.log.append({"i": self.calls, "method": "LOOKUP", "name": k, "fault": None if kind == "ok" else kind,
-                                 "tag": None, "applied": False})
-                if kind == "raise":
-                    raise RuntimeError("injected lookup failure")
-                if kind == "hang":
-                    await asyncio.Event().wait()
-                if kind == "unknown-kind":
-                    raise ValueError("no such kind")
-                return (None, "gadgets", True)
-
-            async_lookup_kind = lookup_kind
-
-        ku.reset()
-        _LOOKUP_RUNS[0] += 1
-        kname = f"Gadget{_LOOKUP_RUNS[0]}"     # kr8s keeps a class (and its plural) per kind name for the whole process
-
-        async def offer():
-            await ku.offer_resource_function("lk.fn", {
-                "apiConfig": {"apiVersion": gen_wf.API_VERSION, "kind": kname, "name": "lk", "namespace": gen_wf.NS},
-                "resource": {"spec": {"want": 1}}, "return": {"site": "lk"}})
-            await ku.offer_value_function("lk.after", {"return": {"got": "=inputs"}})
-            await ku.offer_workflow("lk", {"steps": [
-                {"label": "st0", "ref": {"kind": "ResourceFunction", "name": "lk.fn"},
-                 "condition": {"type": "Cst0", "name": "st0"}},
-                {"label": "st1", "ref": {"kind": "ValueFunction", "name": "lk.after"},
-                 "inputs": {"u": "=steps.st0"}, "condition": {"type": "Cst1", "name": "st1"}}]})
-
-        ku.run(offer())
-        wf = get_resource_from_cache(resource_class=Workflow, cache_key="lk")
-        cl = LCluster()
-        raised = res = None
-        try:
-            res, elapsed, _ = run_virtual(reconcile_workflow(
-                api=cl, workflow_key="lk", owner=("ns", dict(ku.OWNER_REF)), trigger=celpy.json_to_cel({}), workflow=wf))
-        except (KeyboardInterrupt, SystemExit):
-            raise
-        except BaseException as e:
-            raised, elapsed = repr(e), 0.0
-        ck.evaluated()
-        ck.count(f"lookup:{kind}")
-        if raised:
-            bad.append((kind, f"kind lookup {kind}: reconcile_workflow did not return normally: {raised}"))
-            continue
-        conds = [[c.get("type"), c.get("reason")] for c in res.conditions]
-        cls = ku.outcome_class(res.result)
-        if elapsed > limit + EPS:
-            bad.append((kind, f"kind lookup {kind}: the pass took {elapsed} virtual seconds"))
-        if kind == "ok":
-            if cls != "retry" or [m for m in (e["method"] for e in cl.log)] != ["LOOKUP", "GET", "POST"]:
-                bad.append((kind, f"kind lookup ok: expected a create, got {cls} / {[e['method'] for e in cl.log]}"))
-            continue
-        if cls not in ("retry", "permFail"):
-            bad.append((kind, f"kind lookup {kind}: overall outcome is '{cls}'"))
-        if len(conds) != 3 or conds[0][1] not in ERR_REASONS or conds[1][1] == "Ready" or conds[2] == ["Ready", "Ready"]:
-            bad.append((kind, f"kind lookup {kind}: conditions {conds} claim readiness / do not report the failed step"))
-        if any(e["method"] != "LOOKUP" for e in cl.log):
-            bad.append((kind, f"kind lookup {kind}: API requests after the failed lookup: {[e['method'] for e in cl.log]}"))
+    out = []
+    for two_cold in (False, True):
+        ref = None
+        for name, passes in LOOKUP_SCENARIOS:
+            label = f"kind lookup {name}{' (two Functions on the cold kind)' if two_cold else ''}"
+            if only is not None and name not in ("none", only):
+                continue
+            bad = []
+            wf, objects, kname, plural = _lookup_world(two_cold)
+            cur = objects
+            for j, (lf, lat, api_faults) in enumerate(passes):
+                o = _lookup_pass(wf, cur, lf, lat, api_faults)
+                ck.evaluated()
+                ck.count(f"lookup:{name}")
+                where = f"{label}, faulty pass {j + 1}"
+                if o["raised"] or "conditions" not in o:
+                    bad.append(f"{where}: reconcile_workflow did not return normally: {o['raised']}")
+                    break
+                conds, cls = o["conditions"], o["overall"]["c"]
+                if o["elapsed"] > limit + EPS:
+                    bad.append(f"{where}: the pass took {o['elapsed']} virtual seconds")
+                hit = any(e["method"] == "LOOKUP" and (e["fault"] or not e["applied"]) for e in o["cluster"].log)
+                if hit:
+                    if conds[0][1] not in ERR_REASONS:
+                        bad.append(f"{where}: st0 is reported {conds[0]}, not Retry / PermFail")
+                    if conds[1][1] == "Ready":
+                        bad.append(f"{where}: st1 needs the failed st0 but is reported Ready")
+                    if any(e["method"] != "LOOKUP" and e["name"] == "lk" for e in o["cluster"].log):
+                        bad.append(f"{where}: API requests for st0's resource although its kind lookup failed")
+                if (hit or api_faults) and cls not in ("retry", "permFail"):
+                    bad.append(f"{where}: overall outcome is '{cls}'")
+                if conds[-1] == ["Ready", "Ready"] and cls != "ok":
+                    bad.append(f"{where}: final condition Ready/Ready with overall '{cls}'")
+                for c in conds[:-1]:
+                    if c[0] == "Ready" and c[1] == "Ready":
+                        bad.append(f"{where}: a failed step got the condition Ready/Ready")
+                cur = o["cluster"].objects
+            if not bad:
+                slow = []
+                got = _lookup_settle(wf, cur, label, slow, limit)
+                if name == "none":
+                    ref = got
+                    if got is not None and '"c": "ok"' not in got[1]:
+                        bad.append(f"{label}: the never-faulted run does not end Ok: {got[1][:200]}")
+                elif got is not None and ref is not None:
+                    d = ck.cov["distribution"]
+                    d["lookup-recovery-passes-max"] = max(d.get("lookup-recovery-passes-max", 0), got[2])
+                    if got[0] != ref[0]:
+                        bad.append(f"{label}: after the faults stop the cluster converges to contents different from "
+                                   f"the never-faulted run's")
+                    elif got[1] != ref[1]:
+                        bad.append(f"{label}: after the faults stop the Result converges to one different from the "
+                                   f"never-faulted run's: {got[1][:300]}")
+                bad += slow      # the convergence verdict first, the slow fault-free pass after it
+            out += [(name, w) for w in bad]
+    import koreo_util as ku
     ku.reset()
-    return bad
+    return out
 
 
 def report(ck, case, found):
@@ -701,7 +836,7 @@ def replay(path: str) -> int:
                            "faults": {"start": data.get("start", 0), "faults": data.get("faults") or []}}}]
     for v in items:
         if v["case"].get("scenario") == "kind-lookup":
-            found = [x for x in lookup_scenarios(Check("C09", "replay")) if x[0] == v["case"].get("fault")]
+            found = lookup_scenarios(Check("C09", "replay"), only=v["case"].get("fault"))
             print("replay: kind-lookup", v["case"].get("fault"), "::", found[:2])
             rc = rc or (1 if found else 0)
             continue
